@@ -6,8 +6,9 @@ V = os.path.dirname(os.path.dirname(os.path.abspath(__file__)))
 NOTES = {
     'C05-m2': 'float-only defect (exp saturates): found through the weakly-monotone float_exp abstraction; the replayer rescales the model\'s costs (x -> k*x + c) until float exp saturates',
     'C08-m2': 'not a C08 clause of the page decoder; caught by the C17 check (output computed from another page\'s image), stored as C17-from-C08-m2',
+    'C18-m2': 'NOT detected: breaks the first sentence of C18 (heights of ridges in LayoutEngine.parse), which is not claimed (7.6)',
     'C10-m1': 'NOT detected: a 2-point baseline fitted with an under-determined quadratic (poly=2) bends the sampled band; the geometric clauses of C10 are outside the claim (7.6)',
-    'C12-m2': 'NOT detected: needs a non-zero de-skew angle (slanted lines), which runs through shapely / cv2 and is outside the encoding (angle 0 only)',
+    'C12-m2': 'first missed (de-skew angle was fixed to 0); the smart sorter now also runs with an arbitrary non-zero angle and the rotation as an abstract invertible map; the counterexample is replayed through the real shapely rotation with slanted lines',
     'C14-m2': 'first missed (no network in which two arc combinations spell the same string); the path harness now also runs networks whose positions share their arcs',
     'C03-m1': 'first missed: the top-k stub returned the kept entries in index order; it now also returns them reversed (numpy gives no order)',
     'C07-m1': 'first missed: the placement canvas forgot earlier writes; rows now keep all layers and a row that still shows an earlier line is a violation',
@@ -42,7 +43,7 @@ Clauses of *claimed* properties that are not decided (each check's `level_claime
 |---|---|---|
 | C10 | width = baseline length x target height / line height, uniform columns, rows perpendicular to the baseline, "every non-degenerate baseline is actually cropped" | sqrt, rotation and an interpolant inside scipy: the harness written for the domain clause (uninterpreted interp1d, loose sqrt, lazy products) did not return from z3 within minutes and is not scheduled.  Observed concretely while designing (not a finding of a check): a baseline of >= 4 points whose rotated length has fractional part >= 0.9, e.g. (0,0) ... (13,5), makes the cubic interpolant raise and crop() return a blank image |
 | C18 | "exactly one text line per sufficiently separated ridge; end points, vertical position and heights match the map" | scipy.ndimage convolution, dilation, labelling and percentiles over whole maps (C kernels whose trip count grows with the image); only the rotation / coordinate sentence is claimed |
-| C12 | non-zero de-skew (pages with slanted lines) | shapely.affinity / cv2 affine code; the sorters run with angle 0 |
+| C12 | what the de-skew rotation computes numerically | shapely.affinity; the rotation is an abstract invertible map (rotate by -a, then by +a = identity) |
 | C07 | transformer-mode window splitting; sparse storage on more than one frame | C15 covers the merge; two frames of softmax quotients do not return from nlsat |
 | C16 | end-to-end confidence with the real align_text beyond F = 2 | polynomial degree F comparisons in nlsat; covered by the decomposition C05 + arbitrary alignment |
 | C01, C06 | XML escaping / Unicode legality / byte-level identity | inside lxml / libxml2 (stub assumes the round trip) |
